@@ -1,3 +1,3 @@
-import Driver.Common
-/-! Driver for property C01 (stub: the model for this property is not built yet). -/
-def main : IO Unit := Driver.run (fun (s : Unit) _ => (s, "unimplemented")) ()
+import Driver.WireOps
+/-! Driver for property C01 (wire codec round trip): the operations of Driver/WireOps.lean. -/
+def main : IO Unit := Driver.run (fun (s : Unit) line => (s, Driver.wireStep line)) ()
